@@ -197,12 +197,12 @@ package forkexec
 //@   ensures result.3 == nil ==> len(result.1) >= 1 && len(result.2) >= 1
 //@   ensures len(Args) == 0 ==> result.3 != nil
 
-//@ func pkg/forkexec.syscallStringFromString
+//@ func pkg/forkexec.syscallStringFromString props C04
 //@   arith int
 //@   assigns nothing
 //@   ensures result.0 != nil ==> fresh(result.0)
 
-//@ func pkg/forkexec.readlen
+//@ func pkg/forkexec.readlen props C07
 //@   arith int
 //@   overflow wrap
 //@   requires np >= 0
